@@ -50,7 +50,8 @@ META = {
     'note': 'Virtual server, clock, executor and connections as in DESIGN.md section 2.  Client timeouts may expire in any order, and a '
             'timer may run on another thread than the one that processes responses (engine S).  A stream id being handed out again while '
             'the retry of its previous user is queued needs more requests than the bounds allow (ids are recycled first-in first-out).  '
-            'Connection failures and shutdown are left to C12 (same world).',
+            'Connection failures and shutdown are left to C12 (same world).  Engine S: time passes only when every thread waits; a timed '
+            'wait of zero length lets 10 microseconds pass (the polling loop of a borrower whose timeout has expired ends as on a real clock).',
     'design_ref': 'C13',
 }
 
@@ -121,13 +122,13 @@ def s_configs(ctx):
                                                                   script=[('timeout', 1), R, T, ('resp-mine', 0)]), b),
         # A borrower waiting for a slot on a full connection (3 slots) that was below the threshold when it arrived: all three
         # requests are given up, a further request queues the replacement and waits as well, the replacement closes the old
-        # connection; the reactor answers whatever is live
+        # connection (three threads that block and wake each other: preemption bound 1 in both tiers)
         ('waiter-vs-threshold-replace', dict(hc, max_in_flight=4, stage=[R, R, R], threads=['client', 'script', 'worker'],
-                                             script=[('timeout', 0), ('timeout', 1), ('timeout', 2), R]), b),
+                                             script=[('timeout', 0), ('timeout', 1), ('timeout', 2), R]), 1),
         # ... two are given up; a third thread runs the replacement (the old connection is set aside) and then answers the third
         ('waiter-vs-threshold-replace-return', dict(hc, max_in_flight=4, stage=[R, R, R], threads=['client', 'script', 'script'],
                                                     script=[('timeout', 0), ('timeout', 1), R],
-                                                    script2=[('wait-task',), T, ('resp-tag', 2)]), b),
+                                                    script2=[('wait-task',), T, ('resp-tag', 2)]), 1),
     ]
 
 
